@@ -80,10 +80,14 @@ Definition cell_shr (asg : bool) (aw bw yw a b : Z) : Z :=
   mask yw (ext asg aw a (Z.max yw aw) / 2 ^ mask bw b).
 Definition cell_sshr (asg : bool) (aw bw yw a b : Z) : Z :=
   if asg then mask yw (ival true aw a / 2 ^ mask bw b) else cell_shr false aw bw yw a b.
-Definition cell_shift (asg : bool) (aw bw yw a b : Z) : Z := cell_shr asg aw bw yw a b.
-(* the OTHER reading of $shift with A_SIGNED (positions above A's MSB filled with the sign bit); only used to
-   state what emit_part would need (Proofs: lower_part_signfill) *)
+Definition cell_shift_logical (asg : bool) (aw bw yw a b : Z) : Z := cell_shr asg aw bw yw a b.
+(* the OTHER reading of $shift with A_SIGNED (every position above A's MSB filled with the sign bit, whatever the
+   shift amount) — what rtlil.emit_part needs for part-selects of signed values (Proofs: lower_part_signfill) *)
 Definition cell_shift_signfill (asg : bool) (aw bw yw a b : Z) : Z := mask yw (ival asg aw a / 2 ^ mask bw b).
+(* the reading used by the document evaluator (layer B); see Props/C04.v C04_part_select_* for both *)
+Definition SHIFT_SIGNED_FILLS_SIGN : bool := false.
+Definition cell_shift (asg : bool) (aw bw yw a b : Z) : Z :=
+  if SHIFT_SIGNED_FILLS_SIGN then cell_shift_signfill asg aw bw yw a b else cell_shift_logical asg aw bw yw a b.
 (* $mux: Y = S ? B : A *)
 Definition cell_mux (w a b s : Z) : Z := if mask 1 s =? 0 then mask w a else mask w b.
 
@@ -900,7 +904,7 @@ Definition emit_part_with (shiftcell : bool -> Z -> Z -> Z -> Z -> Z -> Z)
          let ow := nlen off + sw in
          (ow, cell_mul false false (nlen off) sw ow (nval rho off) stride) in
   shiftcell vsg (nlen v) ow w (nval rho v) ov.
-Definition emit_part := emit_part_with cell_shift.
+Definition emit_part := emit_part_with cell_shift_logical.
 Definition emit_part_signfill := emit_part_with cell_shift_signfill.
 
 (* ---- processes: a decision tree of assignments to one output, its RTLIL rendering and its flat NIR form ---- *)
